@@ -8,9 +8,9 @@ from .exec import ExecBase
 
 BUILTINS = {"len", "max", "min", "abs", "int", "float", "bool", "list", "tuple", "sorted", "range", "reversed",
             "enumerate", "any", "all", "hash", "id", "set", "isinstance", "tqdm", "sum", "zip", "str", "super",
-            "dict", "print"}
+            "dict", "print", "object"}
 
-SPEC_BUILTINS = {"same_seq", "set_same", "implies", "iff", "forall", "exists", "forall_int", "exists_int", "old", "typeis", "fresh",
+SPEC_BUILTINS = {"dict_get", "dict_has", "same_seq", "set_same", "implies", "iff", "forall", "exists", "forall_int", "exists_int", "old", "typeis", "fresh",
                  "is_none", "ite", "subseq", "seq_concat", "seq_unit", "seq_empty", "same_class", "born_before_entry",
                  "let"}
 
@@ -442,6 +442,12 @@ class ExecExpr(ExecBase):
                 body = z3.Or(ident, e)
             yield st, z3.Exists([j], z3.And(rng, body))
             return
+        if self.is_dict(container):
+            yield st, self.dict_has(st, container, x)
+            return
+        if isinstance(container, VDict) and not container.items:
+            yield st, z3.BoolVal(False)
+            return
         raise EngineError(f"membership in {container}")
 
     def set_same(self, elem, x, eq):
@@ -527,6 +533,9 @@ class ExecExpr(ExecBase):
                 if isinstance(k, V) and isinstance(idx, V) and k.t.eq(idx.t):
                     return v
             raise EngineError("dict literal lookup with non-syntactic key")
+        if self.is_dict(base):
+            self.oblige("safe", st, self.dict_has(st, base, idx), "dictionary key present", name=self.next_call_id("key"))
+            return self.dict_get(st, base, idx, NONE)
         raise EngineError(f"subscript on {base}")
 
     def slice(self, sl, st, base):
@@ -565,6 +574,9 @@ class ExecExpr(ExecBase):
             yield from self.get_attr(s, base, node.attr)
 
     def get_attr(self, st, base, name):
+        if isinstance(base, VBuiltin) and base.name == "object" and name == "__setattr__":
+            yield st, VBuiltin("object.__setattr__")
+            return
         if isinstance(base, VModule):
             if name == "inf" and base.name in ("np", "numpy", "math"):
                 # A-real: +inf is a real constant; contracts state explicitly what it exceeds
@@ -612,6 +624,9 @@ class ExecExpr(ExecBase):
         if isinstance(base, V) and base.kind == "str" and name in ("__eq__", "__hash__"):
             yield st, VBound(base, name)
             return
+        if self.is_dict(base):
+            yield st, VBound(base, name)
+            return
         if isinstance(base, V) and isinstance(base.kind, tuple) and base.kind[0] == "ref":
             if base.cls is None:
                 raise EngineError(f"attribute {name} on untyped reference")
@@ -648,7 +663,7 @@ class ExecExpr(ExecBase):
                 yield from self.get_attr(st, V(base.kind, base.t, tops[0]), name)
                 return
             raise EngineError(f"unknown attribute {name} on {self.w.short_name(base.cls)}")
-        if self.is_seq(base) or isinstance(base, VDict) or (isinstance(base, V) and isinstance(base.kind, tuple) and base.kind[0] == "dict"):
+        if self.is_seq(base) or isinstance(base, VDict) or self.is_dict(base):
             yield st, VBound(base, name)
             return
         raise EngineError(f"attribute {name} on {base}")
